@@ -814,6 +814,10 @@ func (u *Unit) assumeGlobals(fx *FX, st *State) {
 		if isInit {
 			return
 		}
+		if o.typ == nil && (o.name == "base32.StdEncoding" || o.name == "base32.HexEncoding" || o.name == "binary.BigEndian") {
+			// package-level encodings of the standard library are initialised to non-nil values
+			fx.assume(tTrue, gt(sel(sel(st.H, ref), num(0)), num(0)))
+		}
 		if len(o.slots) > 64 {
 			// large tables are asserted lazily by the instructions that read them
 		}
